@@ -93,7 +93,7 @@ func run(tapeJSON json.RawMessage, res *core.Result) {
 		res.Verdict, res.Harness = "invalid", err.Error()
 		return
 	}
-	if len(tp.Pres) < 1 || len(tp.Pres) > 12 || len(tp.Keytab.Services) < 1 || len(tp.Keytab.Realms) < 1 || len(tp.Keytab.Kvnos) < 1 || len(tp.Keytab.Etypes) < 1 {
+	if len(tp.Pres) < 1 || len(tp.Pres) > 120 || len(tp.Keytab.Services) < 1 || len(tp.Keytab.Realms) < 1 || len(tp.Keytab.Kvnos) < 1 || len(tp.Keytab.Etypes) < 1 {
 		res.Verdict, res.Harness = "invalid", "shape"
 		return
 	}
@@ -121,6 +121,8 @@ func run(tapeJSON json.RawMessage, res *core.Result) {
 		opts = append(opts, service.ClientAddress(types.HostAddress{AddrType: 2, Address: world.ClientAddrMatch}))
 	case "other":
 		opts = append(opts, service.ClientAddress(types.HostAddress{AddrType: 2, Address: world.ClientAddrOther}))
+	case "match6":
+		opts = append(opts, service.ClientAddress(types.HostAddress{AddrType: 24, Address: world.ClientAddrMatch6}))
 	}
 	if st.KtPrinc != "" {
 		opts = append(opts, service.KeytabPrincipal(st.KtPrinc))
